@@ -38,7 +38,8 @@ Print Assumptions c15_detection.
 (* No false positive.  If every ping the loop writes is answered by a pong with its request id
    delivered strictly within the timeout ([answered]: fewer than TO clock events between the ping
    and the delivery of its pong), the broker never answers a ping with another response type
-   ([well_typed], broker_wf), transport writes succeed, and fewer than 2^31 application requests
+   ([well_typed], broker_wf: such a response makes sendPing fail and the loop close), transport
+   writes succeed, and fewer than 2^31 application requests
    are sent (request ids are 32-bit: beyond, an application request can take over the reply slot
    of a pending ping), then for ANY interleaving with application requests and messages, inbound
    traffic, broker pings, stale or duplicated pongs and Close by the owner: the loop never gives
@@ -111,11 +112,12 @@ Example c15_example_dead :
     [OPing 2; OMsg; OPong 7; OPing 4; OClose].
 Proof. vm_compute. repeat split. Qed.
 
-(* the model panics where the code does: a non-positive ticker interval, a response of another
-   type under a ping's request id (finding F15 in DESIGN section 10) *)
-Example c15_example_panics :
+(* the model fails where the code does: a non-positive ticker interval panics in time.NewTicker; a
+   response of another type under a ping's request id makes sendPing fail (typedResponse, since the
+   repair of finding F15) and the loop gives a live connection up - hence [well_typed] above *)
+Example c15_example_failures :
   snd (krun 0 2 kinit [EStart]) = [OPanic] /\
-  snd (krun 3 2 kinit [EStart; EResp 2]) = [OPing 2; OPanic].
+  snd (krun 3 2 kinit [EStart; EResp 2]) = [OPing 2; OClose].
 Proof. vm_compute. split; reflexivity. Qed.
 
 (* 1500 ms is announced as 1 s, 999 ms as 0 s, 2 h as 7200 s, 0 as the default *)
